@@ -107,7 +107,7 @@ func (ex *Exec) tableLookup(arr *Cell, idx *T) (Value, bool) {
 		for _, k := range arr.Kids {
 			h = (h ^ k.V.(*T).Val) * 1099511628211
 		}
-		name = fmt.Sprintf("tbl_%s_%x", sanitize(arr.Obj.Site[7:]), h&0xffffffff)
+		name = fmt.Sprintf("tbl%d_%x", n, h&0xffffffffffff)
 		ex.tables[arr] = name
 	}
 	// index width: smallest power-of-two cover
